@@ -154,6 +154,11 @@ func (i *interpreter) feasible(t *sym.Term) sym.Result {
 		i.Stats.CacheHits++
 		return r
 	}
+	if r, ok := i.byteDomainCheck(rel, t); ok {
+		i.Stats.DomainChecks++
+		i.qcache[key] = r
+		return r
+	}
 	as := append(append([]*sym.Term{}, rel...), t)
 	r, _ := i.solver.Check(as, i.cfg.QueryTimeout, nil)
 	i.Stats.FeasQueries++
@@ -161,6 +166,119 @@ func (i *interpreter) feasible(t *sym.Term) sym.Result {
 		i.qcache[key] = r
 	}
 	return r
+}
+
+// byteDomainCheck decides pc-slice ∧ t by enumeration when the only variable involved is a single
+// 8-bit (or boolean) variable: a complete decision procedure for that fragment (DESIGN §2.3).
+// Verdicts on assertions never come from here; it only prunes branches.
+func (i *interpreter) byteDomainCheck(rel []*sym.Term, t *sym.Term) (sym.Result, bool) {
+	vs := i.termVars(t)
+	if len(vs) != 1 {
+		return 0, false
+	}
+	var vid int
+	for v := range vs {
+		vid = v
+	}
+	if vid < 0 {
+		return 0, false
+	}
+	for _, r := range rel {
+		rv := i.termVars(r)
+		if len(rv) != 1 {
+			return 0, false
+		}
+		if _, ok := rv[vid]; !ok {
+			return 0, false
+		}
+	}
+	vt := i.varByID(vid)
+	if vt == nil {
+		return 0, false
+	}
+	n := 0
+	switch {
+	case vt.Sort.K == sym.KBool:
+		n = 2
+	case vt.Sort.K == sym.KBV && vt.Sort.W == 8:
+		n = 256
+	default:
+		return 0, false
+	}
+	// domain of the variable under the relevant path-condition conjuncts (memoised per conjunct)
+	dom := i.domainOf(vid, n, rel)
+	if dom == nil {
+		return 0, false
+	}
+	env := map[int]uint64{}
+	for x := 0; x < n; x++ {
+		if !dom[x] {
+			continue
+		}
+		env[vid] = uint64(x)
+		v, ok := t.Eval(env, map[int]uint64{})
+		if !ok {
+			return 0, false
+		}
+		if v == 1 {
+			return sym.Sat, true
+		}
+	}
+	return sym.Unsat, true
+}
+
+func (i *interpreter) varByID(id int) *sym.Term {
+	if i.varIndex == nil {
+		i.varIndex = map[int]*sym.Term{}
+	}
+	if t, ok := i.varIndex[id]; ok {
+		return t
+	}
+	for k := i.varIndexed; k < len(i.ctx.Vars); k++ {
+		i.varIndex[i.ctx.Vars[k].ID] = i.ctx.Vars[k]
+	}
+	i.varIndexed = len(i.ctx.Vars)
+	return i.varIndex[id]
+}
+
+// domainOf returns the set of values of variable vid allowed by the conjuncts (each conjunct's
+// truth table is memoised).
+func (i *interpreter) domainOf(vid, n int, rel []*sym.Term) []bool {
+	if i.truthTab == nil {
+		i.truthTab = map[int][]bool{}
+	}
+	dom := make([]bool, n)
+	for x := range dom {
+		dom[x] = true
+	}
+	for _, r := range rel {
+		tt, ok := i.truthTab[r.ID]
+		if !ok {
+			tt = make([]bool, n)
+			env := map[int]uint64{}
+			good := true
+			for x := 0; x < n; x++ {
+				env[vid] = uint64(x)
+				v, ok := r.Eval(env, map[int]uint64{})
+				if !ok {
+					good = false
+					break
+				}
+				tt[x] = v == 1
+			}
+			if !good {
+				tt = nil
+			}
+			i.truthTab[r.ID] = tt
+		}
+		if tt == nil {
+			return nil
+		}
+		for x := range dom {
+			dom[x] = dom[x] && tt[x]
+		}
+	}
+	return dom
 }
 
 func cacheKey(rel []*sym.Term, t *sym.Term) string {
@@ -287,6 +405,9 @@ func (i *interpreter) decideTerm(c *sym.Term) bool {
 	tOK, fOK := ft != sym.Unsat, ff != sym.Unsat
 	switch {
 	case tOK && fOK:
+		if i.ForkSites != nil {
+			i.ForkSites[i.where()]++
+		}
 		i.decs = append(i.decs, Decision{Kind: "if", Choice: 1})
 		alt := append(append([]Decision{}, i.decs[:len(i.decs)-1]...), Decision{Kind: "if", Choice: 0})
 		i.push(alt)
@@ -391,6 +512,9 @@ func (i *interpreter) concretize(t *sym.Term, signed bool, what string) int64 {
 		panic(pathAbort{kind: abAssume, msg: "no feasible value"})
 	}
 	sort.Slice(vals, func(a, b int) bool { return vals[a] < vals[b] })
+	if i.ForkSites != nil && len(vals) > 1 {
+		i.ForkSites[fmt.Sprintf("conc(%s)x%d%s", what, len(vals), i.where())]++
+	}
 	base := append([]Decision{}, i.decs...)
 	for k := len(vals) - 1; k >= 1; k-- {
 		alt := append(append([]Decision{}, base...), Decision{Kind: "conc", Choice: vals[k]})
